@@ -224,5 +224,9 @@ func (iter *UnsavedFastIterator) Close() error {
 
 // Error implements store.Iterator
 func (iter *UnsavedFastIterator) Error() error {
-	return iter.err
+	if iter.err != nil {
+		return iter.err
+	}
+	// errors of the underlying storage iterator
+	return iter.fastIterator.Error()
 }
